@@ -102,7 +102,8 @@ def check_shape(case):
     d3 = list(dims) + [0] * (3 - len(dims))
     rmax = max(max(d3), 1) + 1
     centres = list(enumerate(table))
-    radii = list(range(0, rmax + 1)) + [2 ** 31, sys.maxsize]       # "unbounded" radii: the whole grid
+    # "unbounded" radii: the whole grid ('e5000' = 10**5000, an integer with more digits than Python turns into text)
+    radii = list(range(0, rmax + 1)) + [2 ** 31, sys.maxsize, 'e5000']
     if case.get('big'):
         # large worlds: corners, face centres, the centre and one off-centre cell, radii that make big clipped blocks
         ext = [max(e, 1) for e in d3]
@@ -114,6 +115,13 @@ def check_shape(case):
         picks.add((min(1, ext[0] - 1), min(2, ext[1] - 1), min(3, ext[2] - 1)))
         centres = [(i, p) for i, p in centres if p in picks]
         radii = case['radii']
+    index_of = {p: i for i, p in enumerate(table)}
+    narg = {'discrete': 3, 'line': 1, 'grid': 2}[kind]
+    # a resident agent: the world moves it (move_to / move), then its position component is edited directly - as
+    # models do - and handed in as the centre
+    resident = Core.Agent('resident', model)
+    world.add_agent(resident)
+    prev = table[-1]
     agent = Core.Agent('probe', model)
     # ONE position component object per offset is moved from centre to centre (as an agent's own component would
     # be), so an answer remembered for "this component" instead of "this cell" shows up
@@ -125,7 +133,8 @@ def check_shape(case):
         for o in others:
             o.get_moore_neighbours(cid % 12, 1)
             o.get_neumann_neighbours((cid % 2, cid % 3, 0), 2, True, tuple)
-        for r in radii:
+        for r_name in radii:
+            r = 10 ** 5000 if r_name == 'e5000' else r_name
             if case.get('faults'):
                 calls += faults(world, len(table))      # refused queries right before every Moore query
             for metric in ('moore', 'neumann'):
@@ -135,12 +144,21 @@ def check_shape(case):
                 else:
                     ball = [p for p in table if abs(p[0] - centre[0]) + abs(p[1] - centre[1]) +
                             abs(p[2] - centre[2]) <= r]
-                balls.add((cid, r, metric, len(ball)))
+                balls.add((cid, r_name, metric, len(ball)))
                 for incl in (False, True):
                     exp_t = [p for p in ball if incl or p != centre]
-                    exp_i = [table.index(p) for p in exp_t]
+                    exp_i = [index_of[p] for p in exp_t]
                     forms = [('id', cid), ('tuple', centre)]
-                    for off in OFFSETS:
+                    # the world puts the resident somewhere else first; then its component is set to the centre by hand
+                    if incl:
+                        world.move_to(resident, *prev[:narg])
+                    else:
+                        world.move(resident, *[a - b for a, b in zip(prev, resident[Envs.PositionComponent].xyz())][:narg])
+                    rpc = resident[Envs.PositionComponent]
+                    rpc.x, rpc.y, rpc.z = centre[0] + 0.25, centre[1] + 0.25, centre[2] + 0.25
+                    prev = centre
+                    forms.append(('resident', rpc))
+                    for off in (OFFSETS if not case.get('huge') else (0.25,)):
                         pc = movers[off]
                         if off > 0.99:      # the largest double still inside the cell (c + 0.999.. would round up)
                             pc.x, pc.y, pc.z = (math.nextafter(centre[0] + 1, 0), math.nextafter(centre[1] + 1, 0),
@@ -150,8 +168,10 @@ def check_shape(case):
                         forms.append(('pc%s' % off, pc))
                     for fname, cpos in forms:
                         for entry in ('specific', 'generic', 'generic_positional'):
+                            if case.get('huge') and entry == 'generic_positional':
+                                continue
                             for ret in ('int', 'tuple'):
-                                q = [cid, r, metric, incl, fname, entry, ret]
+                                q = [cid, r_name, metric, incl, fname, entry, ret]
                                 if only is not None and q != only:
                                     continue
                                 calls += 1
@@ -173,7 +193,7 @@ def check_shape(case):
                                     got = fn(cpos, r, incl, rt)
                                 if not isinstance(got, list) or [_n(v) for v in got] != exp:
                                     raise Violation(
-                                        f'{metric} neighbourhood of cell {centre} (given as {fname}) radius {r} '
+                                        f'{metric} neighbourhood of cell {centre} (given as {fname}) radius {r_name} '
                                         f'incl_center={incl} ret_type={ret} via {entry} entry point on shape {dims}',
                                         expected=exp, observed=got if isinstance(got, list) else repr(got))
     return calls, (kind, tuple(dims), len(balls))
@@ -296,7 +316,10 @@ AMBIENT_LEGS = True
 def run(ctx):
     cases = [{'leg': 'shape', 'kind': k, 'dims': d} for k, d in shapes(ctx.tier)]
     cases += [{'leg': 'big', 'kind': 'discrete', 'dims': [7, 7, 7], 'big': True, 'radii': [3, 4, 7]},
-              {'leg': 'big', 'kind': 'grid', 'dims': [20, 18], 'big': True, 'radii': [8, 9, 21]}]
+              {'leg': 'big', 'kind': 'grid', 'dims': [20, 18], 'big': True, 'radii': [8, 9, 21]},
+              # windows of more than 4096 cells around off-centre cells
+              {'leg': 'big', 'kind': 'grid', 'dims': [100, 90], 'big': True, 'huge': True, 'radii': [45]},
+              {'leg': 'big', 'kind': 'discrete', 'dims': [18, 17, 19], 'big': True, 'huge': True, 'radii': [9]}]
     if ctx.tier == 'thorough':
         cases += [{'leg': 'big', 'kind': 'discrete', 'dims': [9, 8, 7], 'big': True, 'radii': [3, 4, 5, 9]},
                   {'leg': 'big', 'kind': 'line', 'dims': [600], 'big': True, 'radii': [1, 150, 300, 601]}]
